@@ -591,4 +591,12 @@ DoExport == PrintT(<<"TX", ToJson([hist |-> hist, act |-> act',
                                  to |-> IF View' = View THEN [same |-> TRUE] ELSE Vis(objs', rec', clock', auto', fts'),
                                  obs |-> IF "obs" \in Ops THEN ObsSeq(objs', rec') ELSE {}])>>)
 Export == Scripted /\ DoExport
+
+\* leaner lines for -simulate (TLC evaluates the export for every candidate successor of a level): the history is
+\* replaced by its length and last element, the pre-state is only printed for the first step
+DoExportSim == PrintT(<<"TX", ToJson([hl |-> Len(hist), last |-> IF hist = << >> THEN [name |-> "none"] ELSE hist[Len(hist)],
+                                    act |-> act',
+                                    from |-> IF hist = << >> THEN Vis(objs, rec, clock, auto, fts) ELSE [skipped |-> TRUE],
+                                    to |-> IF View' = View THEN [same |-> TRUE] ELSE Vis(objs', rec', clock', auto', fts')])>>)
+ExportSim == Scripted /\ DoExportSim
 =============================================================================
